@@ -175,6 +175,8 @@ void register_c06(std::vector<Profile>&);
 void register_c08(std::vector<Profile>&);
 void register_c09(std::vector<Profile>&);
 void register_c10(std::vector<Profile>&);
+void register_c16(std::vector<Profile>&);
+void register_c17(std::vector<Profile>&);
 void register_c18(std::vector<Profile>&);
 void register_c20(std::vector<Profile>&);
 
@@ -189,6 +191,8 @@ static std::vector<Profile>& registry()
     register_c08(v);
     register_c09(v);
     register_c10(v);
+    register_c16(v);
+    register_c17(v);
     register_c18(v);
     register_c20(v);
     return v;
